@@ -462,8 +462,11 @@ class HttpParser:
         )
         k = self.add_header(key, value)
         # b'content-length' in self.headers and int(self.header(b'content-length')) > 0
-        if k == b'content-length' and int(value) > 0:
-            self._content_expected = True
+        if k == b'content-length':
+            # The value kept is the one of the last Content-Length field (see add_header):
+            # whether a body is expected must follow it, else a later 0 leaves parse()
+            # spinning on bytes that _process_body never takes.
+            self._content_expected = int(value) > 0
         # return b'transfer-encoding' in self.headers and \
         #   self.headers[b'transfer-encoding'][1].lower() == b'chunked'
         elif k == b'transfer-encoding' and value.lower() == b'chunked':
